@@ -142,6 +142,12 @@ pub fn blobs(ctx: &Ctx) {
     }
 }
 
+/// tiny clouds of narrow records only (the program space of C12-G6)
+pub fn tiny(ctx: &Ctx) {
+    let (p, _) = crate::c12::gen_g6(ctx);
+    run(ctx, &p);
+}
+
 /// a payload source that fails after k bytes: the refused blob leaves an orphan behind, but every
 /// later section and the finalized file must still be well-formed (finalize succeeded)
 pub fn failed_source(ctx: &Ctx) {
